@@ -251,8 +251,17 @@ func runC18(r *Run, p *Prog) {
 				}
 			}
 			for _, cs := range callsIn(l, false) {
-				if t := cs.Common.StaticCallee(); t != nil && t == ro.Handle {
-					got := T.T(cs.Common.Args[2])
+				if t := cs.Common.StaticCallee(); t != nil && isDispatchTarget(p, ro, t) {
+					var connArg ssa.Value
+					for _, a := range cs.Common.Args {
+						if isNamed(a.Type(), pkgVarlink, "ReadWriterContext") || isNamed(a.Type(), pkgCtxio, "Conn") {
+							connArg = a
+						}
+					}
+					if connArg == nil {
+						continue
+					}
+					got := T.T(connArg)
 					r.Ob("U2", shortName(l), "connection handed to HandleMessage", cs.Instr.Pos(), got == readRecv && readRecv != "",
 						fmt.Sprintf("HandleMessage receives %s but frames are read from %s: a handler's raw reads would not continue the frame reader's stream", strip(got), strip(readRecv)))
 				}
@@ -263,20 +272,42 @@ func runC18(r *Run, p *Prog) {
 		} else {
 			idx := fieldIndex(ro.CallT, "Conn")
 			n := 0
+			chain := ro.CG.Reach([]*ssa.Function{ro.Handle}, false)
 			for _, fa := range fieldAddrs(p, ro.CallT, idx) {
 				for _, st := range storesTo(fa) {
-					if st.Parent() != ro.Handle {
+					f := st.Parent()
+					if !chain[f] {
 						continue
 					}
 					n++
 					got := strip(T.T(st.Val))
-					want := "param:" + ro.Handle.Params[2].Name()
-					r.Ob("U2", shortName(ro.Handle), "Call.Conn = "+got, st.Pos(), got == want,
-						"the connection stored in the Call is not the object HandleMessage was given (expected "+want+")")
+					isParam := false
+					for _, prm := range f.Params {
+						if got == "param:"+prm.Name() && (isNamed(prm.Type(), pkgVarlink, "ReadWriterContext") || isNamed(prm.Type(), pkgCtxio, "Conn")) {
+							isParam = true
+						}
+					}
+					r.Ob("U2", shortName(f), "Call.Conn = "+got, st.Pos(), isParam,
+						"the connection stored in the Call is not the connection object the dispatch entry was given")
 				}
 			}
 			if n == 0 {
-				r.Unresolved("U2", "store to Call.Conn in HandleMessage")
+				r.Unresolved("U2", "store to Call.Conn on the dispatch path")
+			}
+			// HandleMessage hands its connection parameter on unchanged when it delegates
+			if e := dispatchEntry(p, ro); e != nil && e != ro.Handle {
+				for _, cs := range callsIn(ro.Handle, false) {
+					if cs.Common.StaticCallee() != e {
+						continue
+					}
+					okk := false
+					for _, a := range cs.Common.Args {
+						if isNamed(a.Type(), pkgVarlink, "ReadWriterContext") && strings.HasPrefix(strip(T.T(a)), "param:") {
+							okk = true
+						}
+					}
+					r.Ob("U2", shortName(ro.Handle), "HandleMessage passes its connection on unchanged", cs.Instr.Pos(), okk, "")
+				}
 			}
 		}
 		r.Floor("U2", 4)
